@@ -70,7 +70,8 @@ GARB   == <<-3, -3>>      \* an ETag the server never issued
 NOHDR  == <<-4, -4>>      \* no If-None-Match header
 Etag(ts, size) == <<ts, size>>
 
-\* request headers: inm = an ETag or NOHDR; ims = whole seconds, -1 absent, -2 malformed date
+\* request headers: inm = an ETag or NOHDR; ims = whole seconds, -1 absent, -2 malformed date, -3 a well-formed date long
+\* before any tile (before 1970): never a reason for 304
 NoCond == [inm |-> NOHDR, ims |-> -1]
 
 StoreTime(c) == IF Backend = "sqlite" THEN 2 * (c \div 2) ELSE c
@@ -200,7 +201,7 @@ SecsFor(t)  == LET base == {clock \div 2} \cup (IF cache[t] # NoTile THEN {cache
 StaleEtags(t) == {GARB} \cup (IF prev[t] # NoTile THEN {Etag(prev[t].m, prev[t].s)} ELSE {})
 NearSecs(t)   == LET b == IF cache[t] # NoTile THEN cache[t].m \div 2 ELSE clock \div 2
                  IN {d \in {b - 1, b, b + 1} : d >= 0}
-Hdrs(t) == {NoCond, [inm |-> NOHDR, ims |-> -2]}
+Hdrs(t) == {NoCond, [inm |-> NOHDR, ims |-> -2], [inm |-> NOHDR, ims |-> -3]}
            \cup {[inm |-> e, ims |-> -1] : e \in EtagsFor(t)}
            \cup {[inm |-> NOHDR, ims |-> d] : d \in SecsFor(t)}
            \cup {[inm |-> e, ims |-> d] : e \in StaleEtags(t), d \in NearSecs(t)}
